@@ -147,8 +147,14 @@ func (x *run) checkC02(obs []seen) *Failure {
 			continue
 		}
 		if reg.Form == kit.FormVoid {
+			// runs that failed (an injected fault) are attempts, not runs: "a failed construction
+			// yields no instance and may be retried" - when the attempt was made on behalf of
+			// somebody's optional dependency the creation goes on and runs the initializer itself
 			perScope := map[int][]*kit.Inv{}
 			for _, inv := range x.W.InvsOf(id) {
+				if inv.Outcome > 1 {
+					continue
+				}
 				perScope[inv.ScopeTag] = append(perScope[inv.ScopeTag], inv)
 			}
 			for tag, rec := range x.R.Scopes {
